@@ -374,6 +374,18 @@ func usable(sh []shr, n int) (idx []int64, val []*big.Int) {
 	}
 	return
 }
+// one share per index (poly.go since 2d8b40a): the first usable entry of every index, in slice order
+func dedupFirst(idx []int64, val []*big.Int) (didx []int64, dval []*big.Int) {
+	seen := map[int64]bool{}
+	for k, i := range idx {
+		if seen[i] {
+			continue
+		}
+		seen[i] = true
+		didx, dval = append(didx, i), append(dval, val[k])
+	}
+	return
+}
 func distinct(idx []int64) bool {
 	seen := map[int64]bool{}
 	for _, i := range idx {
@@ -422,11 +434,11 @@ func pubShares(g *grp, sh []shr) []*share.PubShare {
 }
 
 // ---------------------------------------------------------------------------------------------
-// the three recoveries with their verdicts. want* = what the property demands ("" = no demand:
-// outside the precondition "distinct indices")
+// the three recoveries with their verdicts: one share per index (first occurrence), fewer than t
+// distinct usable indices = error, never a panic
 
 func doRecSecret(g *grp, sh []shr, t, n int) (impl, oracle string) {
-	idx, val := usable(sh, n)
+	idx, val := dedupFirst(usable(sh, n))
 	first, fval := idx, val
 	if t > 0 && len(first) > t {
 		first, fval = idx[:t], val[:t]
@@ -439,11 +451,13 @@ func doRecSecret(g *grp, sh []shr, t, n int) (impl, oracle string) {
 		return "ok " + g.num(s).String()
 	})
 	switch {
+	case strings.HasPrefix(impl, "panic"):
+		oracle = fmt.Sprintf("recsecret-panics: %q", impl)
 	case len(idx) < t:
 		if impl != "err few" {
-			oracle = fmt.Sprintf("recsecret-too-few-accepted: %d usable < t=%d gave %q", len(idx), t, impl)
+			oracle = fmt.Sprintf("recsecret-too-few-accepted: %d distinct usable < t=%d gave %q", len(idx), t, impl)
 		}
-	case distinct(first):
+	default:
 		want, _ := refLagrange0(xsOf(first, g.q), fval, g.q)
 		if impl != "ok "+want.String() {
 			oracle = fmt.Sprintf("recsecret-wrong: want ok %s got %q", want, impl)
@@ -453,7 +467,7 @@ func doRecSecret(g *grp, sh []shr, t, n int) (impl, oracle string) {
 }
 
 func doRecPoly(g *grp, sh []shr, t, n int) (impl, oracle string) {
-	idx, val := usable(sh, n)
+	idx, val := dedupFirst(usable(sh, n))
 	first, fval := idx, val
 	if t > 0 && len(first) > t {
 		first, fval = idx[:t], val[:t]
@@ -469,11 +483,13 @@ func doRecPoly(g *grp, sh []shr, t, n int) (impl, oracle string) {
 		return "ok " + csvBig(g.coeffsOf(p))
 	})
 	switch {
+	case strings.HasPrefix(impl, "panic"):
+		oracle = fmt.Sprintf("recpoly-panics: %q", impl)
 	case len(first) != t:
 		if impl != "err few" {
-			oracle = fmt.Sprintf("recpoly-too-few-accepted: %d usable, t=%d gave %q", len(idx), t, impl)
+			oracle = fmt.Sprintf("recpoly-too-few-accepted: %d distinct usable, t=%d gave %q", len(idx), t, impl)
 		}
-	case distinct(first) && t > 0:
+	case t > 0:
 		want, _ := refInterpolate(xsOf(first, g.q), fval, g.q)
 		if impl != "ok "+csvBig(want) {
 			oracle = fmt.Sprintf("recpoly-wrong: want ok %s got %q", csvBig(want), impl)
@@ -483,8 +499,8 @@ func doRecPoly(g *grp, sh []shr, t, n int) (impl, oracle string) {
 }
 
 func doRecCommit(g *grp, sh []shr, t, n int) (impl, oracle string) {
-	idx, val := usable(sh, n)
-	cand, exact := refLagrange0(xsOf(idx, g.q), val, g.q)
+	idx, val := dedupFirst(usable(sh, n))
+	cand, _ := refLagrange0(xsOf(idx, g.q), val, g.q)
 	impl = catch(func() string {
 		p, err := share.RecoverCommit(g.g, pubShares(g, sh), t, n)
 		if err != nil {
@@ -493,11 +509,13 @@ func doRecCommit(g *grp, sh []shr, t, n int) (impl, oracle string) {
 		return "ok " + g.dlog(p, cand)
 	})
 	switch {
+	case strings.HasPrefix(impl, "panic"):
+		oracle = fmt.Sprintf("reccommit-panics: %q", impl)
 	case len(idx) < t:
 		if impl != "err few" {
-			oracle = fmt.Sprintf("reccommit-too-few-accepted: %d usable < t=%d gave %q", len(idx), t, impl)
+			oracle = fmt.Sprintf("reccommit-too-few-accepted: %d distinct usable < t=%d gave %q", len(idx), t, impl)
 		}
-	case exact:
+	default:
 		if impl != "ok "+cand.String() {
 			oracle = fmt.Sprintf("reccommit-wrong: want ok %s got %q", cand, impl)
 		}
@@ -811,11 +829,8 @@ func execRT(w []string) (res h.Result) {
 	if len(sels) != n {
 		plain = false
 	}
-	idx, _ := usable(sh, n)
-	first := idx
-	if len(first) > t {
-		first = idx[:t]
-	}
+	allIdx, allVal := usable(sh, n)
+	idx, _ := dedupFirst(allIdx, allVal) // the DISTINCT usable indices: what the property counts
 	secret := p.c[0]
 
 	sec := catch(func() string {
@@ -832,16 +847,8 @@ func execRT(w []string) (res h.Result) {
 		}
 		return "ok " + csvBig(g.coeffsOf(q))
 	})
-	// candidate dlog for canonicalisation: the dealt secret times beta when all usable picks are
-	// distinct, otherwise what a 0-for-missing-inverse Lagrange gives (ed25519 outside the precondition)
+	// candidate dlog for canonicalisation: the dealt secret times beta
 	cand := modq(new(big.Int).Mul(secret, beta), g.q)
-	if !distinct(idx) {
-		var ys []*big.Int
-		for _, i := range idx {
-			ys = append(ys, modq(new(big.Int).Mul(refEval(p.c, xOfIdx(i, g.q), g.q), beta), g.q))
-		}
-		cand, _ = refLagrange0(xsOf(idx, g.q), ys, g.q)
-	}
 	com := catch(func() string {
 		c, err := share.RecoverCommit(g.g, pubs, t, n)
 		if err != nil {
@@ -854,10 +861,17 @@ func execRT(w []string) (res h.Result) {
 	}
 	res.Impl = fmt.Sprintf("sec=%s poly=%s com=%s chk=%s", sec, pol, com, chk)
 
-	// verdicts from what the harness dealt (no reference arithmetic needed)
+	// verdicts from what the harness dealt (no reference arithmetic needed): every usable pick is a
+	// true share, so >= t DISTINCT usable indices (any order, any repetition, any junk) must give the
+	// secret / the polynomial / the commitment, fewer an error, and nothing may ever panic
+	for _, o := range []struct{ name, out string }{{"RecoverSecret", sec}, {"RecoverPriPoly", pol}, {"RecoverCommit", com}} {
+		if strings.HasPrefix(o.out, "panic") {
+			orc = append(orc, fmt.Sprintf("rt-panics: %s gave %q", o.name, o.out))
+		}
+	}
 	if len(idx) < t {
 		if sec != "err few" {
-			orc = append(orc, fmt.Sprintf("rt-too-few-accepted: RecoverSecret with %d < t=%d usable gave %q", len(idx), t, sec))
+			orc = append(orc, fmt.Sprintf("rt-too-few-accepted: RecoverSecret with %d < t=%d distinct usable gave %q", len(idx), t, sec))
 		}
 		if pol != "err few" {
 			orc = append(orc, fmt.Sprintf("rt-too-few-accepted: RecoverPriPoly gave %q", pol))
@@ -866,18 +880,14 @@ func execRT(w []string) (res h.Result) {
 			orc = append(orc, fmt.Sprintf("rt-too-few-accepted: RecoverCommit gave %q", com))
 		}
 	} else {
-		if distinct(first) {
-			if sec != "ok "+secret.String() {
-				orc = append(orc, fmt.Sprintf("rt-secret-not-recovered: want ok %s got %q", secret, sec))
-			}
-			if pol != "ok "+csvBig(p.c) {
-				orc = append(orc, fmt.Sprintf("rt-poly-not-recovered: got %q", pol))
-			}
+		if sec != "ok "+secret.String() {
+			orc = append(orc, fmt.Sprintf("rt-secret-not-recovered: want ok %s got %q", secret, sec))
 		}
-		if distinct(idx) {
-			if com != "ok "+modq(new(big.Int).Mul(secret, beta), g.q).String() {
-				orc = append(orc, fmt.Sprintf("rt-commit-not-recovered: got %q", com))
-			}
+		if pol != "ok "+csvBig(p.c) {
+			orc = append(orc, fmt.Sprintf("rt-poly-not-recovered: got %q", pol))
+		}
+		if com != "ok "+modq(new(big.Int).Mul(secret, beta), g.q).String() {
+			orc = append(orc, fmt.Sprintf("rt-commit-not-recovered: got %q", com))
 		}
 	}
 	if len(orc) > 0 {
@@ -887,8 +897,8 @@ func execRT(w []string) (res h.Result) {
 	switch {
 	case len(idx) < t:
 		res.Class = "rt-few"
-	case !distinct(idx):
-		res.Class = "rt-dup"
+	case !distinct(allIdx):
+		res.Class = fmt.Sprintf("rt-dup-%s", g.tag)
 	default:
 		res.Class = fmt.Sprintf("rt-ok-%s-t%d", g.tag, t)
 	}
